@@ -143,6 +143,9 @@ inductive Site
   | rpcSrvPumpOut
   /-- the same for stderr (plugin) -/
   | rpcSrvPumpErr
+  /-- `blockedClientListener.Close` (multiplexed, host side): the literal that takes the announced, never accepted
+  stream of a closed listener off the session; ends when that stream arrives or the session is shut down -/
+  | muxCliDiscard
   deriving DecidableEq, Repr
 
 /-- The number the extractor gives the site (0 is "a `go` statement the model does not know"). -/
@@ -154,14 +157,14 @@ def Site.code : Site → Nat
   | .muxTimeoutWait => 18 | .rpcCliBrokerRun => 19 | .rpcCliCopyOut => 20 | .rpcCliCopyErr => 21
   | .rpcSrvServeConn => 22 | .rpcSrvCopyOut => 23 | .rpcSrvCopyErr => 24 | .rpcSrvBrokerRun => 25
   | .dispenseAccept => 26 | .serveSignals => 27 | .serveServe => 28 | .grpcKnockExpiry => 29
-  | .rpcSrvPumpOut => 30 | .rpcSrvPumpErr => 31
+  | .rpcSrvPumpOut => 30 | .rpcSrvPumpErr => 31 | .muxCliDiscard => 32
 
 def allSites : List Site :=
   [.cleanupKill, .startLogStderr, .startWait, .startScan, .startDrain, .reattachWait, .brokerSrvSend,
    .brokerCliSend, .grpcKnocks, .grpcTimeoutWait, .grpcCliBrokerRun, .grpcCliStartStream, .grpcCliStdio,
    .grpcSrvBrokerRun, .stdioCopyOut, .stdioCopyErr, .muxAcceptSession, .muxTimeoutWait, .rpcCliBrokerRun,
    .rpcCliCopyOut, .rpcCliCopyErr, .rpcSrvServeConn, .rpcSrvCopyOut, .rpcSrvCopyErr, .rpcSrvBrokerRun,
-   .dispenseAccept, .serveSignals, .serveServe, .grpcKnockExpiry, .rpcSrvPumpOut, .rpcSrvPumpErr]
+   .dispenseAccept, .serveSignals, .serveServe, .grpcKnockExpiry, .rpcSrvPumpOut, .rpcSrvPumpErr, .muxCliDiscard]
 
 /-- The sorted list of site numbers the model accounts for: what the extractor must find. -/
 def knownSites : List Nat := allSites.map Site.code
@@ -171,7 +174,7 @@ def knownSites : List Nat := allSites.map Site.code
 def Site.hostRole : Site → Bool
   | .cleanupKill | .startLogStderr | .startWait | .startScan | .startDrain | .reattachWait
   | .brokerCliSend | .grpcKnocks | .grpcTimeoutWait | .grpcKnockExpiry | .grpcCliBrokerRun | .grpcCliStartStream
-  | .grpcCliStdio | .muxTimeoutWait | .rpcCliBrokerRun | .rpcCliCopyOut | .rpcCliCopyErr => true
+  | .grpcCliStdio | .muxTimeoutWait | .rpcCliBrokerRun | .rpcCliCopyOut | .rpcCliCopyErr | .muxCliDiscard => true
   | _ => false
 
 /-! ### Structural facts of the source (tie T-A, regenerated by extract/resources.go) -/
@@ -445,6 +448,7 @@ def gorReleased (P : Params) (L : Lib) : Gor → Bool
   | .site .grpcTimeoutWait => timerFired
   | .site .grpcKnockExpiry => timerFired             -- 4 s timer (or `p.doneCh` / the broker's `doneCh`)
   | .site .muxTimeoutWait => timerFired
+  | .site .muxCliDiscard => peerGone                 -- `session.Accept` fails with the session (or the announced stream arrives)
   | .acceptAndServe => hostBrokerDone P && P.acceptAndServeEndsOnBrokerDone   -- only the run group's `<-b.doneCh`
   | .site _ => peerGone                              -- plugin-role sites end with their process
 
